@@ -69,6 +69,16 @@ CHECKS = {
              "ratio <= r for every piece (cross-multiplied), blockages untouched.",
         note="r from {1.42,1.5,1.9,2,3}, n<=4 (6 thorough), input ratios <= 8, one or two starting rectangles, die with one blockage.",
         design="5/C11"),
+    'C08': dict(
+        text="The CNF that the real rect.solve/enforce_bb build for a grid is captured from the SAT manager and its whole model set "
+             "is decided by z3 with the cell variables of every box as symbolic Booleans: (exists aux. CNF) implies the independent "
+             "specification of k-box single-trunk orthogons and the cost bound, and every orthogon meeting the bound extends to a "
+             "model (quantified Boolean query); plus: the rectangles rect.solve returns are the boxes of an admitted shape and a "
+             "shape is returned iff one meets the bound.",
+        note="grids up to 2x3/3x2 with k<=2 (3x3, k<=3 thorough) on 5 coordinate families (origins 0/1.5/2, unit, 0.75, non-uniform "
+             "steps), minimum-error mode, 3 cost bounds; PySAT assumed complete.",
+        technique="SMT/QBF model-set equivalence (z3) between the CNF generated by the real code and an independent specification",
+        design="5/C08"),
     'C03': dict(
         text="Bounded symbolic model checking of the real create_initial_allocation (Die, Netlist, create_squares, fixed-rectangle "
              "detection, overlap ratios, Allocation constructor) with module rectangle positions/widths symbolic: z3 proves for every "
